@@ -5,7 +5,7 @@
 PROP=$1; SRC=$2; NAME=$3; CHECKS=${4:-$PROP}; NOSUITE=$5
 WT=/tmp/sv_$NAME; OUT=/verif/seeded/$NAME
 rm -rf $WT; git -C /repo worktree add -q $WT HEAD || exit 3
-mkdir -p $OUT; cp $SRC/patch.diff $SRC/demo.py $OUT/; cp $SRC/notes.md $OUT/ 2>/dev/null
+mkdir -p $OUT; cp -r $SRC/* $OUT/ 2>/dev/null; rm -rf $OUT/__pycache__
 cd $WT
 PYTHONPATH=$WT timeout 120 /venv/bin/python $OUT/demo.py > $OUT/demo_clean.log 2>&1; CLEAN=$?
 if ! git apply $OUT/patch.diff 2> $OUT/apply.log; then
